@@ -49,7 +49,7 @@ type compCase struct {
 	NQ       int    `json:"n_queries"`
 	Sockets  bool   `json:"sockets"`
 	UpTo     int    `json:"up_to_query"`
-	Burst    bool   `json:"concurrent_phase,omitempty"` // also run the concurrent real-socket rounds
+	Burst    bool   `json:"concurrent_phase,omitempty"`     // also run the concurrent real-socket rounds
 	Hostile  bool   `json:"hostile_client_phase,omitempty"` // also run the failed-request / slow-upload rounds
 
 	// for the reader (regenerated from the seed on replay)
@@ -446,11 +446,12 @@ func main() {
 	})
 	rep = evid.New("C03", "exploration")
 	caselog = evid.OpenCaseLog()
-	rep.SetRule("compositions of the built-in plugins are generated from the seed as configuration data (sequence rule text with jump/goto/fallback sub-sequences over cache, redirect, hosts, black_hole, arbitrary, reject, ttl, ecs, ecs_handler, forward_edns0opt, prefer_ipv4/6, drop_resp and matchers) and built by coremain.NewMosdns; each ends in an echoing upstream (harness terminal plugin or real forward to a loopback echo server) whose scripted outcome (answer of 0..65535 bytes, rcode, none, error) is a function of the question name; each composition receives a generated stream of wire-level client messages (fresh / repeated questions, ID classes, re-cased and special names, all AA TC RD RA Z AD CD x opcode combinations, OPT variants, malformed section counts) via EntryHandler.Handle (UDP/TCP/DoH calling conventions) and via real loopback UDP/TCP/DoH sockets, sequentially and - for every fourth composition - in a concurrent phase (4-8 UDP client sockets firing back-to-back bursts, pipelined queries per TCP connection, concurrent DoH requests; unique question per query, chain outcome keyed by that question). A case is non-trivial when a verdict was reached for it; distinct = distinct (composition shape, outcome class, transport, truncated?, cache-hit?) tuple.")
+	rep.SetRule("compositions of the built-in plugins are generated from the seed as configuration data (sequence rule text with jump/goto/fallback sub-sequences over cache, redirect, hosts, black_hole, arbitrary, reject, ttl, ecs, ecs_handler, forward_edns0opt, prefer_ipv4/6, drop_resp and matchers) and built by coremain.NewMosdns; each ends in an echoing upstream (harness terminal plugin or real forward to a loopback echo server) whose scripted outcome (answer of 0..65535 bytes, rcode, none, error) is a function of the question name; each composition receives a generated stream of wire-level client messages (fresh / repeated questions, ID classes, re-cased and special names, all AA TC RD RA Z AD CD x opcode combinations, OPT variants, malformed section counts) via EntryHandler.Handle (UDP/TCP/DoH calling conventions) and via real loopback UDP/TCP/DoH sockets, sequentially and - for every fourth composition - in a concurrent phase (4-8 UDP client sockets firing back-to-back bursts, pipelined queries per TCP connection, concurrent DoH requests; unique question per query, chain outcome keyed by that question) and a hostile-client phase (per round and protocol: 2-5 requests that fail - DoH bodies shorter than announced / broken or cut-off chunked encoding / oversized / wrong media type / bad base64 / cut-off request head, ended by half-close, close or reset, HTTP/2 streams reset mid-upload, TCP frames shorter than their prefix / zero and 12-byte lengths / garbage frames, UDP runts, garbage, oversized and cut-off datagrams - some aborted only while other traffic is in flight; then well-formed queries of slow uploaders (HTTP/1.1 Content-Length or chunked bodies, HTTP/2 DATA frames and TCP frames that arrive in two parts cut at 0, 1, 2, 12, n-1 or a random offset, the second part only after the round's ordinary clients were served) overlapping with 3-6 ordinary concurrent clients; every well-behaved reply is judged against its own query). A case is non-trivial when a verdict was reached for it; distinct = distinct (composition shape, outcome class, transport, truncated?, cache-hit?) tuple.")
 	rep.Assume("lib/wire parses replies correctly (independent of miekg/dns; unit-tested)")
 	rep.Assume("the recorder's snapshot of qCtx.R() taken when the entry executable returns is the plugins' answer")
 	rep.Assume("loopback sockets neither lose nor duplicate datagrams/segments; 'none other' is judged within a settle window after the handler is known to have returned")
 	rep.Assume("queries whose header counts promise records that are absent (count lies) are not judged")
+	rep.Assume("hostile-client phase: requests that fail are not judged themselves (except that a datagram shorter than a DNS header must not be answered); a body with trailing bytes behind the query is not a well-formed query and its reply is not judged; a TCP query whose connection the server's 2 s first-read timer closed before the handler saw it is delivered again")
 	rep.Assume("over real UDP sockets the advertised size is kept <= 65000 (an IPv4 datagram cannot carry a 65535-byte payload)")
 
 	if rep.ReplayFile != "" {
